@@ -16,6 +16,8 @@ import z3
 
 VERIF = os.path.dirname(os.path.dirname(os.path.abspath(__file__)))
 REPO = os.environ.get("VERIF_REPO", "/repo")
+# scratch output root for mutation runs against a worktree (evidence / replays only); default: /verif itself
+OUT = os.environ.get("VERIF_OUT", VERIF)
 EXIT_OK, EXIT_VIOLATION, EXIT_HARNESS = 0, 1, 2
 
 
@@ -154,12 +156,12 @@ class Reporter:
         self.inconclusive = []
         self.assumptions = []
         self.known = [k for k in load_known() if k.get("property") == pid]
-        os.makedirs(os.path.join(VERIF, "replays"), exist_ok=True)
-        os.makedirs(os.path.join(VERIF, "evidence"), exist_ok=True)
+        os.makedirs(os.path.join(OUT, "replays"), exist_ok=True)
+        os.makedirs(os.path.join(OUT, "evidence"), exist_ok=True)
 
     def replay_path(self, key):
         h = hashlib.sha1(key.encode()).hexdigest()[:12]
-        return os.path.join(VERIF, "replays", f"{self.pid}_{h}.json")
+        return os.path.join(OUT, "replays", f"{self.pid}_{h}.json")
 
     def violation(self, key: str, text: str, replay: dict):
         """key identifies the failing input / call site (matched against known_findings.json)"""
@@ -199,7 +201,7 @@ class Reporter:
             "wall_s": round(time.time() - self.t0, 2),
             "violations": len(self.violations),
         }
-        with open(os.path.join(VERIF, "evidence", f"{self.pid}.json"), "w") as f:
+        with open(os.path.join(OUT, "evidence", f"{self.pid}.json"), "w") as f:
             json.dump(ev, f, indent=1, default=str)
         for key, what in self.known_hits:
             print(f"KNOWN-FINDING: property={self.pid} {what}")
